@@ -114,6 +114,12 @@ func (f *Frame) callStatic(instr ssa.Instruction, callee *ssa.Function, bindings
 		g.usedTrusted[key] = true
 		return m(f, instr, st, args, pos)
 	}
+	if i := strings.Index(key, "["); i > 0 {
+		if m, ok := externModels[key[:i]+"[]"]; ok { // generic instantiation
+			g.usedTrusted[key[:i]] = true
+			return m(f, instr, st, args, pos)
+		}
+	}
 	ct := g.ctx.contracts[key]
 	// closures and synthetic wrappers are part of the enclosing text: inline
 	isClosure := callee.Parent() != nil
@@ -387,8 +393,9 @@ func (g *Gen) evalMod(m string, ev *Eval) ([]ModEntry, error) {
 			return nil, fmt.Errorf("%s is not a pointer or located aggregate", m)
 		}
 		return []ModEntry{{Key: "", Lo: addr, Hi: tAdd(addr, intLit(cellSize(T))), Typ: T, Text: m}}, nil
-	case strings.HasSuffix(m, "[*]"):
-		e, err := parseExpr(strings.TrimSuffix(m, "[*]"))
+	case strings.HasSuffix(m, "[*]"), strings.HasSuffix(m, "[:cap]"):
+		whole := strings.HasSuffix(m, "[:cap]")
+		e, err := parseExpr(strings.TrimSuffix(strings.TrimSuffix(m, "[*]"), "[:cap]"))
 		if err != nil {
 			return nil, err
 		}
@@ -400,7 +407,11 @@ func (g *Gen) evalMod(m string, ev *Eval) ([]ModEntry, error) {
 		if !ok {
 			return nil, fmt.Errorf("%s is not a slice", m)
 		}
-		return []ModEntry{{Key: "", Lo: v.Comps[0], Hi: tAdd(v.Comps[0], tMul(v.Comps[1], intLit(cellSize(sl.Elem())))), Typ: sl.Elem(), Rng: true, Text: m}}, nil
+		n := v.Comps[1]
+		if whole {
+			n = v.Comps[2]
+		}
+		return []ModEntry{{Key: "", Lo: v.Comps[0], Hi: tAdd(v.Comps[0], tMul(n, intLit(cellSize(sl.Elem())))), Typ: sl.Elem(), Rng: true, Text: m}}, nil
 	case strings.HasPrefix(m, "*"):
 		e, err := parseExpr(m[1:])
 		if err != nil {
@@ -1152,8 +1163,8 @@ func staticMod(callee *ssa.Function, m string, lm *loopMods) bool {
 	switch {
 	case strings.HasSuffix(m, ".*"):
 		base, mode = strings.TrimSuffix(m, ".*"), "wild"
-	case strings.HasSuffix(m, "[*]"):
-		base, mode = strings.TrimSuffix(m, "[*]"), "elems"
+	case strings.HasSuffix(m, "[*]"), strings.HasSuffix(m, "[:cap]"):
+		base, mode = strings.TrimSuffix(strings.TrimSuffix(m, "[*]"), "[:cap]"), "elems"
 	case strings.HasPrefix(m, "*"):
 		base, mode = m[1:], "deref"
 	}
